@@ -106,7 +106,7 @@ PROPS["C16"] = {
     "level_text": "seeded search over loop-timing schedules on the real HAL notifier; every wait() checked against the t0 + k*P grid exactly in integer microseconds; sampling, not proof",
     "level_note": "trusted: WPILib HAL simulation notifier implementation; the period is read at the HAL's 1 us resolution (any fixed integer p with |p - P*1e6| < 1); one NotifierDelay alive at a time",
     "quick": {"runs": 9000, "wall_s": 150}, "thorough": {"runs": 400000, "wall_s": 1500},
-    "probes_expected": ["wait_slept", "wait_exact", "wait_overrun", "caught_up_after_overrun", "wait_after_free", "freed_by_exit", "freed_by_free_twice"],
+    "probes_expected": ["wait_slept", "wait_exact", "wait_overrun", "caught_up_after_overrun", "wait_after_free", "freed_by_exit", "freed_by_free_twice", "entered_later", "stale_wait_on_released_instance"],
     "state_measure": "(op, wait class) pairs and their successions, hashed",
     "real_vs_stub": {"real": ["robotpy_ext.misc.precise_delay.NotifierDelay", "HAL notifier bookkeeping (initialize/update/wait/stop/clean)", "HAL simulated clock"],
                      "simulated": ["the loop body durations", "who advances time while the loop sleeps (hal.waitForNotifierAlarm seam)", "late wake-ups"]},
